@@ -2,7 +2,10 @@
 
 Same graph families as C18 (gen/graphs.py): every rooted digraph on 1..4 nodes (thorough: 5), every <= 3-node graph with
 edges in {absent, normal, catch}, every successor insertion order for <= 3 nodes (thorough: 4), every method CFG of
-the shipped DEX files.  The REAL `Graph.compute_rpo()` is run on a REAL Graph and `node.num` is judged semantically:
+the shipped DEX files; plus HISTORIES on one Graph object (build, number, apply one -- thorough: two -- Graph API
+mutation(s) {add_edge, add_catch_edge, remove_node, entry change} keeping the graph rooted, number again after each:
+the numbering must be valid for the graph as it is at that moment; a stale but still valid numbering passes, equality
+with a freshly built graph is not demanded).  The REAL `Graph.compute_rpo()` is run on a REAL Graph and `node.num` is judged semantically:
 
   (a) the entry has number 1;
   (b) the numbers of the n (all reachable) nodes are a permutation of 1..n;
@@ -62,6 +65,13 @@ def shards(ctx):
     for name in D.dex_files(ctx):
         parts = 4 if name.endswith("classes.dex") else 1
         s += [("dex", name, k, parts) for k in range(parts)]
+    # histories on ONE Graph object: number, mutate through the API, number again (must be valid for the graph as it is)
+    depth = 2 if ctx.thorough else 1
+    s += [("hist", "bin", 1, 0, 2, 1, depth), ("hist", "bin", 2, 0, 16, 1, depth)]
+    s += [("hist", "bin", 3, lo, lo + 128, 1, depth) for lo in range(0, 512, 128)]
+    s += [("hist", "tri", 1, 0, 1, 1, depth), ("hist", "tri", 2, 0, 1, 1, depth)]
+    s += [("hist", "tri", 3, k, 16, 4 if ctx.thorough else 1, depth) for k in range(16)]
+    s += [("hist", "bin", 4, lo, lo + 4096, 1 if ctx.thorough else 8, 1) for lo in range(0, 1 << 16, 4096)]
     if ctx.thorough:
         s += [("ord", 4, lo, lo + 256) for lo in range(0, 1 << 16, 256)]
         s += [("bin", 5, lo, lo + CH5) for lo in range(0, 1 << 25, CH5)]
@@ -73,8 +83,6 @@ def judge(g, nodes, rows, reach, entry=0):
     """Runs the real compute_rpo and judges node.num.  reach(v) = bit set of the nodes reachable from v.
     Returns (message or None, nums or None)."""
     n = len(nodes)
-    for nd in nodes:
-        nd.num = 0
     try:
         g.compute_rpo()
     except Exception as e:      # noqa
@@ -168,11 +176,78 @@ def one_enum(acc, nodes, n, edges, fam, stats=True):
                       "graph n=%d edges=%s (entry 0): %s" % (n, edges, msg))
 
 
+def run_history(n, edges, ops):
+    """One Graph object: build, compute_rpo, then for each op: mutate through the Graph API and compute_rpo again.
+    Returns None or (name of the op after which the numbering is invalid | 'initial', message)."""
+    nodes = D.make_nodes(n)
+    g = D.build(nodes, edges)
+    alive, medges, entry = list(range(n)), [(e[0], e[1], e[2] if len(e) > 2 else "n") for e in edges], 0
+    rows = G.rows_of_edges(n, edges)
+    msg = judge(g, nodes, rows, G.closure(n, rows).__getitem__)[0]
+    if msg:
+        return "initial", msg
+    for i, op in enumerate(ops):
+        op = tuple(op)
+        D.apply_real(g, nodes, op)
+        alive, medges, entry = D.apply_model(alive, medges, entry, op)
+        sub_nodes, rows, sub_edges, e = D.sub_view(n, nodes, alive, medges, entry)
+        msg, num = judge(g, sub_nodes, rows, G.closure(len(alive), rows).__getitem__, e)
+        if msg:
+            return op[0], ("graph n=%d edges=%s, numbered, then %s -> live nodes %s edges %s entry %d; numbering again on "
+                           "the SAME Graph object: %s  [nodes renumbered %s]"
+                           % (n, edges, [list(o) for o in ops[:i + 1]], alive, medges, entry, msg,
+                              {x: k for k, x in enumerate(alive)}))
+    return None
+
+
+def explore_history(acc, n, edges, depth):
+    alive, medges, entry = list(range(n)), [(e[0], e[1], e[2] if len(e) > 2 else "n") for e in edges], 0
+    seqs = [[op] for op in D.candidate_ops(n, alive, medges, entry)]
+    if depth >= 2:
+        seqs2 = []
+        for (op,) in seqs:
+            a2, e2, en2 = D.apply_model(alive, medges, entry, op)
+            seqs2 += [[op, op2] for op2 in D.candidate_ops(n, a2, e2, en2)]
+        seqs += seqs2
+    for ops in seqs:
+        res = run_history(n, edges, ops)
+        acc.n += 1
+        acc.nt_disjoint += 1
+        acc.count("histories")
+        acc.count("history_ops_" + ops[-1][0])
+        if res:
+            acc.violation("rpo:after:%s" % res[0],
+                          {"fam": "hist", "n": n, "edges": [list(e) for e in edges], "ops": [list(o) for o in ops]}, res[1])
+
+
+def run_hist(ctx, shard, acc):
+    _, fam, n, a, b, stride, depth = shard
+    k = 0
+    if fam == "bin":
+        for mask in G.rooted_masks(n, a, b):
+            k += 1
+            if k % stride == 0:
+                explore_history(acc, n, G.edge_list(n, mask), depth)
+    else:
+        for i, edges in enumerate(G.rooted_tri(n)):
+            if i % b != a or not any(e[2] == "c" for e in edges):
+                continue
+            k += 1
+            if k % stride == 0:
+                explore_history(acc, n, edges, depth)
+    if fam == "bin" and n == 3 and a == 0:
+        acc.sample({"family": "history on one Graph object", "n": 3, "edges": [[0, 1], [1, 2]],
+                    "ops": [["add_catch_edge", 0, 2]]})
+    return acc
+
+
 def run_shard(ctx, shard):
     acc = Acc()
     kind = shard[0]
     if kind == "dex":
         return run_dex(ctx, shard, acc)
+    if kind == "hist":
+        return run_hist(ctx, shard, acc)
     n = shard[1]
     nodes = D.make_nodes(n)
     if kind == "bin":
@@ -255,6 +330,9 @@ def run_dex(ctx, shard, acc):
 
 
 def replay(ctx, w):
+    if w["fam"] == "hist":
+        res = run_history(w["n"], [tuple(e) for e in w["edges"]], w["ops"])
+        return res[1] if res else None
     if w["fam"] == "dex":
         for idx, label, dm in D.dex_methods(ctx, w["file"]):
             if idx == w["index"]:
@@ -273,7 +351,8 @@ def finalize(ctx, acc):
     if len(acc.outcomes) < 10:        # 1 + 1 + 2! + 3! numberings with the entry first exist for n <= 4
         acc.harness_error("vacuity: only %d distinct numberings seen" % len(acc.outcomes))
     for name in ("graphs_dag", "graphs_with_cycle", "graphs_with_cycle_and_forced_forward_edges",
-                 "forced_forward_edges", "dex_methods"):
+                 "forced_forward_edges", "dex_methods", "history_ops_add_edge", "history_ops_add_catch_edge",
+                 "history_ops_remove_node", "history_ops_set_entry"):
         if not ex.get(name):
             acc.harness_error("vacuity: counter %s is zero" % name)
     # the oracle must be able to say no: a deliberately wrong numbering of a 3-node chain has to be rejected
